@@ -227,3 +227,122 @@ Print Assumptions C06_src_filter_exists_chain.
 Theorem C06_src_optimize_clears_cache : optimize_clears_regex_cache = true.
 Proof. exact optimize_clears_cache. Qed.
 Print Assumptions C06_src_optimize_clears_cache.
+
+(* ------------------------------------------------------------------ the WHOLE answer (verdict bits,
+   chosen redirect, rewritten URL; CSP policy) after ANY history equals the rule-by-rule
+   specification record over the rules loaded and the tags enabled by that history; it only depends
+   on the rule SET and the tag SET; it equals the answer of an engine built in one batch *)
+From Adb Require Import Engine_Model Engine_History_Model Engine_History_Proofs.
+From Adb Require C13_Model C15_Model.
+Theorem C06_history_whole_answer :
+  forall (h : str -> N) (om : N -> bool) (pm : N -> str -> bool) (pr : list N),
+  In 0 pr ->
+  forall (supported : bool) (url : str) (st : C13_Model.storage) (mr fc : bool) (ops : list hop),
+  let L := loaded ops in
+  let T := tagset ops in
+  id_inj L ->
+  TG h (rmatch om pm) pr L ->
+  (forall f : rule, In f L -> wfp f = true) ->
+  engine_check (rmatch om pm) pr supported url st mr fc (hrun h ops) =
+  spec_result (rmatch om pm) supported url st mr fc L T.
+Proof. exact history_engine_check. Qed.
+Print Assumptions C06_history_whole_answer.
+
+Theorem C06_history_csp :
+  forall (h : str -> N) (om : N -> bool) (pm : N -> str -> bool) (pr : list N),
+  In 0 pr ->
+  forall (rtype : request_type) (ops : list hop),
+  let L := loaded ops in
+  let T := tagset ops in
+  id_inj L ->
+  TG h (rmatch om pm) pr L ->
+  (forall f : rule, In f L -> wfp f = true) ->
+  C15_Model.same_policy (engine_csp (rmatch om pm) pr rtype (hrun h ops))
+    (C15_Model.get_csp_for rtype (spec_csp_rules (rmatch om pm) L T)).
+Proof. exact history_engine_csp. Qed.
+Print Assumptions C06_history_csp.
+
+Theorem C06_history_whole_answer_set_determined :
+  forall (h : str -> N) (om : N -> bool) (pm : N -> str -> bool) (pr : list N),
+  In 0 pr ->
+  forall (supported : bool) (url : str) (st : C13_Model.storage) (mr fc : bool) (ops1 ops2 : list hop),
+  id_inj (loaded ops1) ->
+  TG h (rmatch om pm) pr (loaded ops1) ->
+  (forall f : rule, In f (loaded ops1) -> wfp f = true) ->
+  same_rule_set (loaded ops1) (loaded ops2) ->
+  same_tag_set (tagset ops1) (tagset ops2) ->
+  engine_check (rmatch om pm) pr supported url st mr fc (hrun h ops1) =
+  engine_check (rmatch om pm) pr supported url st mr fc (hrun h ops2).
+Proof. exact history_engine_set_determined. Qed.
+Print Assumptions C06_history_whole_answer_set_determined.
+
+Theorem C06_history_csp_set_determined :
+  forall (h : str -> N) (om : N -> bool) (pm : N -> str -> bool) (pr : list N),
+  In 0 pr ->
+  forall (rtype : request_type) (ops1 ops2 : list hop),
+  id_inj (loaded ops1) ->
+  TG h (rmatch om pm) pr (loaded ops1) ->
+  (forall f : rule, In f (loaded ops1) -> wfp f = true) ->
+  same_rule_set (loaded ops1) (loaded ops2) ->
+  same_tag_set (tagset ops1) (tagset ops2) ->
+  C15_Model.same_policy (engine_csp (rmatch om pm) pr rtype (hrun h ops1))
+    (engine_csp (rmatch om pm) pr rtype (hrun h ops2)).
+Proof. exact history_engine_csp_set_determined. Qed.
+Print Assumptions C06_history_csp_set_determined.
+
+Theorem C06_history_whole_answer_eq_batch :
+  forall (h : str -> N) (om : N -> bool) (pm : N -> str -> bool) (pr : list N),
+  In 0 pr ->
+  forall (supported : bool) (url : str) (st : C13_Model.storage) (mr fc : bool) (ops : list hop),
+  id_inj (loaded ops) ->
+  TG h (rmatch om pm) pr (loaded ops) ->
+  (forall f : rule, In f (loaded ops) -> wfp f = true) ->
+  engine_check (rmatch om pm) pr supported url st mr fc (hrun h ops) =
+  engine_check (rmatch om pm) pr supported url st mr fc
+    (tags_with_set h (blocker_new h (loaded ops)) (tagset ops)).
+Proof. exact history_engine_eq_batch. Qed.
+Print Assumptions C06_history_whole_answer_eq_batch.
+
+Theorem C06_history_csp_eq_batch :
+  forall (h : str -> N) (om : N -> bool) (pm : N -> str -> bool) (pr : list N),
+  In 0 pr ->
+  forall (rtype : request_type) (ops : list hop),
+  id_inj (loaded ops) ->
+  TG h (rmatch om pm) pr (loaded ops) ->
+  (forall f : rule, In f (loaded ops) -> wfp f = true) ->
+  C15_Model.same_policy (engine_csp (rmatch om pm) pr rtype (hrun h ops))
+    (engine_csp (rmatch om pm) pr rtype (tags_with_set h (blocker_new h (loaded ops)) (tagset ops))).
+Proof. exact history_engine_csp_eq_batch. Qed.
+Print Assumptions C06_history_csp_eq_batch.
+
+Theorem C06_spec_result_set :
+  forall (matches : rule -> bool) (supported : bool) (url : str) (st : C13_Model.storage) 
+    (mr fc : bool) (L1 L2 : list rule) (T1 T2 : list str),
+  same_rule_set L1 L2 ->
+  same_tag_set T1 T2 ->
+  spec_result matches supported url st mr fc L1 T1 = spec_result matches supported url st mr fc L2 T2.
+Proof. exact spec_result_set. Qed.
+Print Assumptions C06_spec_result_set.
+
+Theorem C06_spec_csp_set :
+  forall (matches : rule -> bool) (rtype : request_type) (L1 L2 : list rule) (T1 T2 : list str),
+  same_rule_set L1 L2 ->
+  same_tag_set T1 T2 ->
+  C15_Model.same_policy (C15_Model.get_csp_for rtype (spec_csp_rules matches L1 T1))
+    (C15_Model.get_csp_for rtype (spec_csp_rules matches L2 T2)).
+Proof. exact spec_csp_set. Qed.
+Print Assumptions C06_spec_csp_set.
+
+Theorem C06_history_whole_answer_wfp_refuted :
+  exists ops : list hop,
+    id_inj (loaded ops) /\
+    TG seahash (rmatch C06_History_Proofs.hx_om C06_History_Proofs.hx_pm) C06_History_Proofs.hx_probes
+      (loaded ops) /\
+    In 0 C06_History_Proofs.hx_probes /\
+    engine_check (rmatch C06_History_Proofs.hx_om C06_History_Proofs.hx_pm) C06_History_Proofs.hx_probes
+      true C06_History_Proofs.hx_url C13_Model.empty_store false false (hrun seahash ops) <>
+    spec_result (rmatch C06_History_Proofs.hx_om C06_History_Proofs.hx_pm) true
+      C06_History_Proofs.hx_url C13_Model.empty_store false false (loaded ops) 
+      (tagset ops).
+Proof. exact history_engine_wfp_refuted. Qed.
+Print Assumptions C06_history_whole_answer_wfp_refuted.
